@@ -319,6 +319,7 @@ def judgeShape (obs : List ObsObj) : Option String :=
   obs.findSome? fun ob =>
     if ob.term != 0 then some s!"o{ob.id}: no NUL after the last byte"
     else if ob.units.length != ob.size then some s!"o{ob.id}: size differs from the bytes held"
+    else if ob.whereS.startsWith "!" then some s!"o{ob.id}: an observer disagrees with c_str()/size() ({ob.whereS})"
     else if ob.whereS.startsWith "A" || ob.whereS.startsWith "Z" then some s!"o{ob.id}: data() points into another object"
     else if ob.size < L && ob.whereS != "L" then some s!"o{ob.id}: short contents not inside the object"
     else if ob.size ≥ L && !ob.whereS.startsWith "H" then some s!"o{ob.id}: long contents not on the heap"
